@@ -396,6 +396,15 @@ func watchdog() {
 func fire(tr *quartz.CronTrigger, prev int64, desc string) string {
 	current.Store(desc)
 	startedAt.Store(time.Now().UnixNano())
+	defer func() {
+		// a panic inside NextFireTime: name the input, then die as the process would have
+		if r := recover(); r != nil {
+			out.Flush()
+			fmt.Printf("PANIC\t%s\t%v\n", desc, r)
+			os.Stdout.Sync()
+			panic(r)
+		}
+	}()
 	ns, err := tr.NextFireTime(prev)
 	startedAt.Store(0)
 	if err != nil {
